@@ -23,9 +23,9 @@ from .common import Consumer, guarded
 
 LEVEL = 'model_checking'
 
-OPTIONAL = ["in", "inl", "g", "sib", "sec", "lnkf", "lnkd", "back", "lnkx", "lnkl"]
+OPTIONAL = ["in", "inl", "g", "sib", "sec", "lnkf", "lnkd", "back", "lnkx", "lnkl", "cap"]
 COMPS_ALL = ["in", "in.tex", "g", "sub", "deep", "..", ".", "dir", "dir2", "sib", "out", "secret",
-             "secret.tex", "lnkf", "lnkd", "back", "lnk", "lnk.tex", "dlink", "lnk2", "lnk2.latex"]
+             "secret.tex", "lnkf", "lnkd", "back", "lnk", "lnk.tex", "dlink", "lnk2", "lnk2.latex", "Dir", "cap"]
 
 MC = """---- MODULE MC_InputFile ----
 EXTENDS InputFile
@@ -59,7 +59,7 @@ def marker(path):
 
 FILES = {
     'in': ('p', 'q', 'dir', 'in.tex'), 'inl': ('p', 'q', 'dir', 'in.latex'), 'g': ('p', 'q', 'dir', 'g'),
-    'sib': ('p', 'q', 'dir2', 'sib.tex'), 'sec': ('p', 'q', 'out', 'secret.tex'),
+    'sib': ('p', 'q', 'dir2', 'sib.tex'), 'sec': ('p', 'q', 'out', 'secret.tex'), 'cap': ('p', 'q', 'Dir', 'cap.tex'),
 }
 LINKS = {
     'lnkf': (('p', 'q', 'dir', 'lnkf'), ('p', 'q', 'out', 'secret.tex')),
@@ -89,7 +89,7 @@ def layout_dir(scratch, layout):
         atexit.register(_cleanup)
     root = tempfile.mkdtemp(prefix='L', dir=_proc_root[0])
     J = lambda p: os.path.join(root, *p)
-    for d in (('p', 'q', 'dir', 'sub'), ('p', 'q', 'dir2'), ('p', 'q', 'out')):
+    for d in (('p', 'q', 'dir', 'sub'), ('p', 'q', 'dir2'), ('p', 'q', 'out'), ('p', 'q', 'Dir')):
         os.makedirs(J(d))
     with open(J(ALWAYS_FILE), 'w') as f:
         f.write(marker(ALWAYS_FILE))
@@ -308,8 +308,8 @@ def run(ctx):
         ctx.control('as_implemented resolution violates NeverOutside', r.violated == 'NeverOutside', str(r.violated))
         # main run
         if quick:
-            t2 = [t for t in OPTIONAL if t not in ('g', 'inl', 'lnkl')]
-            jobs = _jobs(scratch, t2, ['g', 'inl', 'lnkl'], COMPS_ALL, 2, ["dir", "dlink"], True, 'intended',
+            t2 = [t for t in OPTIONAL if t not in ('g', 'inl', 'lnkl', 'cap')]
+            jobs = _jobs(scratch, t2, ['g', 'inl', 'lnkl', 'cap'], COMPS_ALL, 2, ["dir", "dlink"], True, 'intended',
                          ["in", "lnkx", "sib", "sec"], 900)
         else:
             jobs = _jobs(scratch, OPTIONAL, [], COMPS_ALL, 2, ["dir", "dlink"], True, 'intended',
